@@ -339,18 +339,28 @@ class Parser:
         for n, code in enumerate(mac.args):
             arg_extr = arg = []
             delim = False
-            tok = buf.skip_space()
+            # skip space, but remember language switches: they must not be
+            # lost, if an optional argument is not present
+            lang_toks = []
+            tok = buf.cur()
+            while buf.is_space(tok):
+                if type(tok) is defs.LanguageToken:
+                    lang_toks.append(tok)
+                tok = buf.next()
             if tok:
                 pos = tok.pos
             if code == '*':
                 if tok and tok.txt == '*':
                     arg_extr = arg = [tok]
                     buf.next()
+                else:
+                    buf.back(lang_toks)
             elif code == 'O':
                 if tok and tok.txt == '[':
                     delim = True
                     arg_extr = arg = self.arg_buffer(buf, pos, end=']').all()
                 else:
+                    buf.back(lang_toks)
                     if n < len(mac.defaults):
                         # NB: do not use positions from macro definition,
                         #     nor from the token following the macro
